@@ -58,18 +58,55 @@ def r1(ctx):
     rows = [c for c in walk_exprs(h) if c["k"] == "MCall" and c["m"] == "write_row"]
     seps = [c for c in walk_exprs(h) if c["k"] == "MCall" and c["m"] == "write_row_separator"]
     ok = len(rows) == 1 and len(seps) == 1
+    why = "%d write_row and %d write_row_separator calls" % (len(rows), len(seps))
     if ok:
-        g = [t for t in guards_of(h, seps[0]) if t[0] == "if"]
-        conds = [render(c) for t in g for c in conjuncts(t[1])]
-        ok = any(c.replace(" ", "") in ("(self.found>1)",) for c in conds) and any(c == "!self.is_buffered()" for c in conds)
+        # the conditions under which the separator and the row are written are evaluated (finite interpreter) for
+        # (buffered or not) x (found = 1, 2, 3): guards common to both cancel out; wherever the row is streamed the
+        # separator must have been written exactly when found > 1, and never without a row
+        import interp
+        gs_s = [t for t in with_exits(guards_of(h, seps[0]) or []) if t[0] == "if"]
+        # the row is streamed where the buffer it was rendered into is written to standard output
+        outs = [c for c in walk_exprs(h) if c["k"] == "MCall" and c["m"] in ("write_fmt", "write_all", "write") and "stdout" in render(c["recv"])]
+        target = outs[0] if len(outs) == 1 else rows[0]
+        gs_r = [t for t in with_exits(guards_of(h, target) or []) if t[0] == "if"]
+        key = lambda t: (render(t[1]), t[2])
+        common = {key(t) for t in gs_s} & {key(t) for t in gs_r}
+        xs, xr = [t for t in gs_s if key(t) not in common], [t for t in gs_r if key(t) not in common]
+        ms_s = [t for t in (guards_of(h, seps[0]) or []) if t[0] == "match" and t[3] == "Normal"] if False else []
+        for buffered in (False, True):
+            for found in (1, 2, 3):
+                def call(node, recv, args, it, env, buffered=buffered):
+                    if node.get("m") == "is_buffered" or str(node.get("callee", "")).endswith("::is_buffered"):
+                        return (buffered,)
+                    return None
+                try:
+                    ev = lambda t: interp.eval_in(h, t[1], {"self": {"found": found}}, call=call, prog=ctx.prog) == t[2]
+                    S = all(ev(t) for t in xs)
+                    R = all(ev(t) for t in xr)
+                except interp.Undecided as e:
+                    ok, why = False, "cannot evaluate the separator / row conditions: %s" % e
+                    break
+                if buffered and not xr and not xs:
+                    continue
+                if (R and S != (found > 1)) or (S and not R):
+                    if not (buffered and not R and not S):
+                        ok = False
+                        why = "with is_buffered() = %s and found = %d the separator is %swritten and the row is %sstreamed" % (
+                            buffered, found, "" if S else "not ", "" if R else "not ")
+                        break
+            if not ok:
+                break
         order = list(walk_exprs(h))
-        ok = ok and order.index(seps[0]) < order.index(rows[0]) and render(seps[0]["args"][0]) == render(rows[0]["args"][0])
+        if ok and not (order.index(seps[0]) < order.index(rows[0])):
+            ok, why = False, "the separator is written after the row"
+        if ok and render(seps[0]["args"][0]) != render(rows[0]["args"][0]):
+            ok, why = False, "separator and row go to different buffers (%s / %s)" % (render(seps[0]["args"][0]), render(rows[0]["args"][0]))
     n += 1
     ctx.obligation(ok)
     if not ok:
         ctx.violation("separator/check_file/streamed", ctx.where(CHECK_FILE),
                       "a streamed row must be preceded, in the same buffer, by the row separator exactly when it is not the "
-                      "first row (`!is_buffered() && found > 1`)")
+                      "first row (`!is_buffered() && found > 1`): %s" % why)
     # (b), (c), (d): list_search_results
     h = ctx.anchor_hir(LSR)
     its = find_iterations(h)
